@@ -302,7 +302,68 @@ def make_parser_machine(ctx):
     return ParserMachine
 
 
+# ---------------------------------------------------------------- schedule: sequential vs multi-process vs resumed runs
+def strat_schedule():
+    from hypothesis import strategies as st
+    return st.fixed_dictionaries(dict(n_pages=st.integers(3, 5), seeds=st.lists(st.integers(1, 10 ** 6), min_size=5, max_size=5),
+                                      lines=st.lists(st.integers(1, 3), min_size=5, max_size=5), procs=st.sampled_from([2, 3]),
+                                      first_part=st.lists(st.booleans(), min_size=5, max_size=5)))
+
+
+def run_script(argv):
+    import subprocess
+    import sys
+    script = os.path.join(os.environ.get("VERIF_REPO", "/repo"), "user_scripts", "parse_folder.py")
+    p = subprocess.run([sys.executable, script] + argv[1:], stdout=subprocess.PIPE, stderr=subprocess.STDOUT, text=True, timeout=600)
+    return p.returncode, p.stdout
+
+
+def body_schedule(ctx, case):
+    import shutil
+    from vlib import folder as F
+    n = case["n_pages"]
+    ids = ["pg%02d" % i for i in range(n)]
+    kinds = ("xml", "render", "lines")
+    with F.scratch() as d:
+        job = F.make_job(d, ids, case["lines"][:n], case["seeds"][:n])
+        with open(job["config"], "w") as f:       # model-free stages only
+            f.write("[PAGE_PARSER]\nRUN_LAYOUT_PARSER = no\nRUN_LINE_CROPPER = yes\nRUN_OCR = no\nRUN_DECODER = no\n\n"
+                    "[LINE_CROPPER]\nINTERP = 2\nLINE_SCALE = 1\nLINE_HEIGHT = 16\n")
+        desc = lambda: "case=%r" % (case,)
+        seq = F.out_dirs(d, "seq", kinds)
+        rc, out = run_script(F.argv_for(job, seq, process_count=1))
+        ctx.check(rc == 0 and "ERROR" not in out, "sequential_run_fails", lambda: "rc=%r %s; " % (rc, out[-500:]) + desc())
+        ref = F.snapshot(seq)
+        ctx.check(sorted(ref["xml"]) == sorted(i + ".xml" for i in ids), "sequential_run_incomplete", lambda: "%r; " % sorted(ref["xml"]) + desc())
+        par = F.out_dirs(d, "par", kinds)
+        rc, out = run_script(F.argv_for(job, par, process_count=case["procs"]))
+        ctx.check(rc == 0 and "ERROR" not in out, "parallel_run_fails", lambda: "rc=%r %s; " % (rc, out[-500:]) + desc())
+        diff = F.diff_snapshots(ref, F.snapshot(par))
+        ctx.check(not diff, "parallel_run_differs_from_sequential", lambda: "%r; " % (diff,) + desc())
+        # resumed run: the first part of the pages is already there (copied from a run over those pages only)
+        res = F.out_dirs(d, "res", kinds)
+        first = [i for i, b in zip(ids, case["first_part"]) if b]
+        for k in ("xml", "render"):
+            os.makedirs(res[k], exist_ok=True)
+        os.makedirs(res["lines"], exist_ok=True)
+        for i in first:
+            shutil.copy(os.path.join(seq["xml"], i + ".xml"), res["xml"])
+            shutil.copy(os.path.join(seq["render"], i + ".jpg"), res["render"])
+            for fn in os.listdir(seq["lines"]):
+                if fn.startswith(i + "-"):
+                    shutil.copy(os.path.join(seq["lines"], fn), res["lines"])
+        rc, out = run_script(F.argv_for(job, res, skip=True, process_count=case["procs"] if len(first) % 2 else 1))
+        ctx.check(rc == 0 and "ERROR" not in out, "resumed_run_fails", lambda: "rc=%r %s; " % (rc, out[-500:]) + desc())
+        for i in first:
+            ctx.check("Processing %s\n" % i not in out, "complete_page_processed_again", lambda: "page %s; " % i + desc())
+        diff = F.diff_snapshots(ref, F.snapshot(res))
+        ctx.check(not diff, "resumed_run_differs_from_sequential", lambda: "%r; " % (diff,) + desc())
+        if 0 < len(first) < n:
+            ctx.nontrivial(repr(case))
+
+
 UNITS = [
     Unit("page_decoder", "machine", machine=make_decoder_machine, quick=320, thorough=4000, steps=10, shards_quick=8),
     Unit("page_parser", "machine", machine=make_parser_machine, quick=64, thorough=800, steps=7, shards_quick=8),
+    Unit("schedule", "given", body=body_schedule, strategy=strat_schedule, quick=8, thorough=64, shards_quick=4, shards_thorough=16),
 ]
